@@ -177,6 +177,18 @@ pub fn establish(
     Ok(Established { dev, rdr, first_outcome, qr, establishment, ble_reader, ble_device, engaged_state })
 }
 
+/// as documents_of, but every stored document gets the SAME `id` (a public field that nothing makes unique)
+pub fn documents_of_same_id(mdocs: Vec<Mdoc>) -> Documents {
+    let mut m: BTreeMap<String, Document> = BTreeMap::new();
+    let shared = uuid::Uuid::from_bytes([7; 16]);
+    for md in mdocs {
+        let mut d: Document = md.clone().into();
+        d.id = shared;
+        m.insert(md.doc_type.clone(), d);
+    }
+    NonEmptyMap::try_from(m).expect("at least one document")
+}
+
 pub fn documents_of(mdocs: Vec<Mdoc>) -> Documents {
     let mut m: BTreeMap<String, Document> = BTreeMap::new();
     for md in mdocs {
